@@ -466,7 +466,7 @@ fn blocking_runs(iterations: usize) -> (u64, Option<String>) {
     let mut runs = 0;
     core::quiet_all(true);
     for it in 0..iterations {
-        for case in 0..6 {
+        for case in 0..8 {
             runs += 1;
             let log: Arc<Mutex<Vec<(u32, &'static str)>>> = Default::default();
             let l2 = log.clone();
@@ -524,6 +524,45 @@ fn blocking_runs(iterations: usize) -> (u64, Option<String>) {
                                     r
                                 });
                             }
+                            6 | 7 => {
+                                // a nested blocking scope whose ROOT panics (6) / returns Ok (7) while a
+                                // background blocking task of that scope is still busy (it notices the
+                                // cancellation, works for 30 ms more, then ends): run_blocking! must not be
+                                // left - by return or by unwinding - before that task has ended
+                                s.spawn_blocking(move || {
+                                    struct Left(Arc<Mutex<Vec<(u32, &'static str)>>>);
+                                    impl Drop for Left {
+                                        fn drop(&mut self) {
+                                            self.0.lock().unwrap().push((4, "left the nested scope"));
+                                        }
+                                    }
+                                    let _left = Left(l.clone());
+                                    let r: Result<(), u32> = scope::run_blocking!(ctx, |ctx, s| {
+                                        let l3 = l.clone();
+                                        let started = Arc::new(std::sync::atomic::AtomicBool::new(false));
+                                        let st2 = started.clone();
+                                        s.spawn_bg_blocking(move || {
+                                            st2.store(true, std::sync::atomic::Ordering::SeqCst);
+                                            while ctx.is_active() {
+                                                std::thread::yield_now();
+                                            }
+                                            std::thread::sleep(std::time::Duration::from_millis(30));
+                                            l3.lock().unwrap().push((3, "ok"));
+                                            Ok(())
+                                        });
+                                        while !started.load(std::sync::atomic::Ordering::SeqCst) {
+                                            std::thread::yield_now();
+                                        }
+                                        if case == 6 {
+                                            l.lock().unwrap().push((2, "panic"));
+                                            panic!("root of a blocking scope panics");
+                                        }
+                                        l.lock().unwrap().push((2, "ok"));
+                                        Ok(())
+                                    });
+                                    r
+                                });
+                            }
                             _ => {
                                 let r = scope::wait_blocking(move || {
                                     l.lock().unwrap().push((2, "ok"));
@@ -540,9 +579,17 @@ fn blocking_runs(iterations: usize) -> (u64, Option<String>) {
                 res
             });
             let lg = log.lock().unwrap().clone();
-            let all_ended = lg.iter().any(|e| e.0 == 1) && lg.iter().any(|e| e.0 == 2) && (case != 4 || lg.iter().any(|e| e.0 == 3));
+            let all_ended = lg.iter().any(|e| e.0 == 1) && lg.iter().any(|e| e.0 == 2) && (!matches!(case, 4 | 6 | 7) || lg.iter().any(|e| e.0 == 3));
+            let left_early = matches!(case, 6 | 7) && match (lg.iter().position(|e| e.0 == 3), lg.iter().position(|e| e.0 == 4)) {
+                (Some(ended), Some(left)) => left < ended,
+                (None, Some(_)) => true,
+                _ => false,
+            };
             let bad = match (case, &r) {
+                (_, _) if left_early => Some(format!("run_blocking! was left ({}) while a blocking task of its scope was still running: {lg:?}", if case == 6 { "its root panicked and the panic unwound through it" } else { "it returned" })),
                 (_, _) if !all_ended => Some(format!("scope returned before all blocking tasks finished: {lg:?}")),
+                (6, Err(_)) => None,
+                (7, Ok(Ok(0))) => None,
                 (0, Ok(Ok(0))) => None,
                 (1, Ok(Err(2))) => None,
                 (2, Err(_)) => None,
